@@ -14,6 +14,13 @@ pub struct InputPath<'a> { _p: &'a u8 }
 /// router.rs: input_path_to_segments (C03's subject: splitting, dot-segments, percent-decoding) -- out of
 /// reach of both verifiers (DESIGN section 5); here an uninterpreted partial function of the path
 pub uninterp spec fn segments_of(p: InputPath<'_>) -> Result<Seq<String>, String>;
+/// C03: a segment that may be delivered to a handler
+pub open spec fn good_segment(s: String) -> bool { s@ != "."@ && s@ != ".."@ && s@.len() > 0 }
+/// the contract of input_path_to_segments as PROVED in unit V12 (obligation
+/// `input_path_to_segments#no_dot_or_empty_segment_is_delivered`): segments_of is, by definition, what that function
+/// returns, so what it returns on success contains no '.', '..' or empty segment
+pub broadcast axiom fn ax_segments_are_good(p: InputPath<'_>)
+    ensures #[trigger] segments_of(p) is Ok ==> forall|i: int| 0 <= i < segments_of(p)->Ok_0.len() ==> good_segment(#[trigger] segments_of(p)->Ok_0[i]);
 #[verifier::external_body]
 pub fn input_path_to_segments(path: &InputPath) -> (r: Result<Vec<String>, String>)
     ensures (r is Ok) == (segments_of(*path) is Ok),
